@@ -182,6 +182,10 @@ func (s *DDSketch) GetValueAtQuantile(quantile float64) (float64, error) {
 	if rank < 0 {
 		// The total count may be less than 1 (non-integer counts, reweighting).
 		rank = 0
+	} else if rank >= count {
+		// count - 1 is rounded to count when count is greater than 2^53: the
+		// rank has to stay below the total count.
+		rank = math.Nextafter(count, 0)
 	}
 
 	negativeValueCount := s.negativeValueStore.TotalCount()
